@@ -197,7 +197,7 @@ func RunFamily(f *Family, tier string) int {
 			for _, r := range reports {
 				e := evExec[r.L-1]
 				m := map[string]any{"class": r.Class, "kind": r.Kind, "devs": r.Devs, "ref": r.Ref, "obs": r.Obs, "impl": r.Impl,
-					"schema": e.Schema, "opts": e.Unit.Raw["opts"], "builderr": firstLine(e.BuildErr)}
+					"schema": e.Schema, "opts": e.Unit.Raw["opts"], "builderr": firstLine(e.BuildErr), "fmtbad": e.FmtBad}
 				for _, k := range []string{"pos", "ctx", "kind", "use", "req"} {
 					if v, ok := e.Unit.Raw[k]; ok {
 						m["unit_"+k] = v
@@ -271,7 +271,7 @@ func RunFamily(f *Family, tier string) int {
 				if len(vlines) < 10 {
 					rp := &Replay{Property: f.Prop, Kind: "runtime-unit/" + v.rep.Kind, Unit: v.e.Unit.Raw, DocIndex: 0,
 						Schema: v.e.Schema, Options: v.e.Unit.Opts(), Expected: v.rep.Ref, Observed: v.rep.Obs,
-						Detail: "unit-level check failed: " + v.rep.Kind + " " + firstLine(v.e.BuildErr), HowTo: "bin/vcheck replay " + f.Prop + " <this file>"}
+						Detail: "unit-level check failed: " + v.rep.Kind + " " + firstLine(v.e.BuildErr) + " " + v.e.FmtBad, HowTo: "bin/vcheck replay " + f.Prop + " <this file>"}
 					p, err := writeReplay(rp, fmt.Sprintf("seed%d-unit%d-%s", seed, v.e.Unit.Idx, v.rep.Kind))
 					if err != nil {
 						return infra(f.Prop, err)
@@ -359,6 +359,10 @@ func RunFamily(f *Family, tier string) int {
 			"packing several units as sibling optional sub-objects of one program does not change their behaviour (violations are re-executed as singletons)",
 		}, f.Assume...),
 		WallS: time.Since(t0).Seconds(), Violations: confirmed}
+	if f.Judge == "build" { // programs, not documents, are the cases
+		ev.Coverage["evaluations"] = len(events)
+		ev.Coverage["distinct_nontrivial"] = len(events)
+	}
 	if err := WriteEvidence(ev); err != nil {
 		return infra(f.Prop, err)
 	}
